@@ -132,6 +132,10 @@ def observe(P, x, y, X, A, p):
             shape=[int(s) for s in P.shape],
             cplx=int(np.issubdtype(P.dtype, np.complexfloating)),
             PPv=col(P @ (P @ x)),
+            PPop=col((P @ P) @ x),
+            vPPop=row(y @ (P @ P)),
+            PPHop=col((P @ P).H @ x),
+            PPAop=col((P @ P @ aslinearoperator(A)) @ x),
         )
     return obs
 
